@@ -511,7 +511,12 @@ func (iter *runsInnerIterator[T]) Next() (T, bool) {
 		iter.parent = nil
 		return zero, false
 	}
-	return iter.parent.inner.Next()
+	next, ok := iter.parent.inner.Next()
+	if ok {
+		// The run goes on for as long as each item is the same as the one before it.
+		iter.prev = next
+	}
+	return next, ok
 }
 
 // While returns an iterator that terminates before the first item from iter for which f returns
